@@ -224,7 +224,10 @@ def split_cases(count, seed, K):
 def big_cases(tier, seed, K):
     """Tables too big to log row by row."""
     specs = [("res-9999-in-chain", dict(nres=9999, chain="AA", start=10001)),
-             ("res-10000-in-chain", dict(nres=10000, chain="AA", start=1))]
+             ("res-10000-in-chain", dict(nres=10000, chain="AA", start=1)),
+             # a residue is (number, insertion code): 5000 numbers, each with and without code A, are 10000 residues
+             ("res-10000-via-icodes", dict(nres=5000, chain="AA", start=1, icodes=["", "A"])),
+             ("res-9998-via-icodes", dict(nres=4999, chain="AA", start=1, icodes=["", "A"]))]
     # interleaved chains close to the serial limit: atoms + chains <= 99999 < atoms + chain runs (every chain
     # switch costs a TER serial), so the renumbering itself has to notice that the serials run out
     specs += [("atoms-99984-interleaved", dict(nres=1, chain="AA", start=1, atoms=5, blocks=["AA", "BB", "CC", "DD"] * 5,
@@ -273,10 +276,11 @@ def _big_atoms(spec):
         return atoms
     for ch in [spec["chain"]] + ([spec["second"]] if spec.get("second") else []):
         for r in range(spec["nres"]):
+          for ic in spec.get("icodes", [""]):
             for k in range(spec.get("atoms", 1)):
                 nm = names[k % len(names)]
                 atoms.append({"rec": "ATOM", "name": nm, "elem": nm[0], "alt": "", "resn": "A", "chain": ch,
-                              "resseq": spec["start"] + r, "icode": "", "x": rng.randint(-99999, 99999), "y": r, "z": k,
+                              "resseq": spec["start"] + r, "icode": ic, "x": rng.randint(-99999, 99999), "y": r, "z": k,
                               "occ": 100, "b": 0, "charge": 0, "model": 1, "serial": serial})
                 serial += 1
     if spec.get("drop"):
